@@ -730,6 +730,15 @@ impl EventReader {
         }
     }
 
+    /// Give up on reporting the event with the provided number, so that it is not considered again.
+    pub fn skip(&mut self, event_number: EventNumber) {
+        if event_number > self.max_seen_event_number
+            && event_number <= self.next_max_seen_event_number
+        {
+            self.max_seen_event_number = event_number;
+        }
+    }
+
     pub fn process_read(
         &mut self,
         event: EventData<'_>,
